@@ -748,6 +748,14 @@ func (w *world) observe() string {
 		}
 	}
 	parts = append(parts, show("L", it))
+	// which of the observed addresses exist as accounts (x/auth): a migrated unbonding entry can only be paid to one
+	it = nil
+	for _, a := range w.actors {
+		if app.AccountKeeper.HasAccount(ctx, a.addr) {
+			it = append(it, item{[]int64{int64(a.id)}, fmt.Sprint(a.id)})
+		}
+	}
+	parts = append(parts, show("AC", it))
 	return strings.Join(parts, " ")
 }
 
@@ -2152,6 +2160,8 @@ func (w *world) reset() {
 		acc := w.s.App.AccountKeeper.GetAccount(ctx, a.addr)
 		if acc != nil && acc.GetPubKey() != nil {
 			w.out.Emit(fmt.Sprintf("key %d", a.id), "ok")
+		} else if acc != nil {
+			w.out.Emit(fmt.Sprintf("acct %d", a.id), "ok")
 		}
 	}
 	w.out.Emit("key 100", "ok")
